@@ -10,11 +10,11 @@
   with what the spec reader `Spec.parseDoc` makes of the emitted bytes — as trees, compounds by key.
 -/
 import Driver.NBTCommon
-import GoMC.Model.NBTEncode
+import Driver.GoValText
 namespace Driver.C01
-open GoMC GoMC.Spec GoMC.Model.NBTEnc Driver Driver.NBT
+open GoMC GoMC.Spec GoMC.Model.Go Driver Driver.NBT
 
-/-! ### parsing value descriptions -/
+/-! ### parsing value descriptions (the tree-level syntax of harness/c01enc.go) into the Go value universe -/
 
 abbrev P (α : Type) := List Char → Option (α × List Char)
 
@@ -29,16 +29,19 @@ def expect (s : String) (cs : List Char) : Option (List Char) :=
   let p := s.toList
   if cs.take p.length == p then some (cs.drop p.length) else none
 
+def st1Type : GoType :=
+  .struct [110, 98, 116, 83, 116, 49] [({ name := [82], anonymous := false, exported := true, nbt := [114] }, .raw)]
+
 partial def parseType : P GoType := fun cs =>
   let (w, rest) := takeWhileC isAlnum cs
   match String.ofList w with
-  | "bool" => some (.bool, rest) | "i8" => some (.i8, rest) | "i16" => some (.i16, rest)
-  | "i32" => some (.i32, rest) | "i64" => some (.i64, rest) | "u8" => some (.u8, rest)
-  | "u16" => some (.u16, rest) | "u32" => some (.u32, rest) | "u64" => some (.u64, rest)
-  | "int" => some (.int, rest) | "uint" => some (.uint, rest) | "f32" => some (.f32, rest)
-  | "f64" => some (.f64, rest) | "str" => some (.str, rest) | "any" => some (.any, rest)
-  | "raw" => some (.raw, rest) | "map" => some (.mapAny, rest) | "unit" => some (.unit, rest)
-  | "st1" => some (.st1, rest)
+  | "bool" => some (.bool, rest) | "i8" => some (.int .i8, rest) | "i16" => some (.int .i16, rest)
+  | "i32" => some (.int .i32, rest) | "i64" => some (.int .i64, rest) | "u8" => some (.int .u8, rest)
+  | "u16" => some (.int .u16, rest) | "u32" => some (.int .u32, rest) | "u64" => some (.int .u64, rest)
+  | "int" => some (.int .int, rest) | "uint" => some (.int .uint, rest) | "f32" => some (.f32, rest)
+  | "f64" => some (.f64, rest) | "str" => some (.str, rest) | "any" => some (.iface, rest)
+  | "raw" => some (.raw, rest) | "map" => some (.map .iface, rest) | "unit" => some (.struct [] [], rest)
+  | "st1" => some (st1Type, rest)
   | "sl" => do
     let r ← expect "<" rest
     let (t, r) ← parseType r
@@ -54,23 +57,29 @@ def natField (cs : List Char) : Option (Nat × List Char) :=
   let (h, rest) := takeWhileC isHexC cs
   (parseHexNat (String.ofList h)).map fun n => (n, rest)
 
+def mkInt (k : IK) (n : Nat) : GoVal := .int k (GoText.intOfBits k (n % 2 ^ k.bits))
+
+/-- an element of a slice of static type `e`: elements of a `[]any` sit in interfaces -/
+def boxFor (e : GoType) (v : GoVal) : GoVal :=
+  match e, v with
+  | .iface, .iface none => .iface none
+  | .iface, v => .iface (some v)
+  | _, v => v
+
 mutual
   partial def parseVal : P GoVal := fun cs =>
     let (w, rest) := takeWhileC isAlnum cs
+    let num (k : IK) : Option (GoVal × List Char) := do
+      let r ← expect ":" rest
+      let (n, r) ← natField r
+      pure (mkInt k n, r)
     match String.ofList w with
-    | "nil" => some (.nil, rest)
-    | "unit" => some (.unit, rest)
+    | "nil" => some (.iface none, rest)
+    | "unit" => some (.struct [] [] [], rest)
     | "bool" => do let r ← expect ":" rest; let (n, r) ← natField r; pure (.bool (n != 0), r)
-    | "i8" => do let r ← expect ":" rest; let (n, r) ← natField r; pure (.i8 (BitVec.ofNat 8 n), r)
-    | "i16" => do let r ← expect ":" rest; let (n, r) ← natField r; pure (.i16 (BitVec.ofNat 16 n), r)
-    | "i32" => do let r ← expect ":" rest; let (n, r) ← natField r; pure (.i32 (BitVec.ofNat 32 n), r)
-    | "i64" => do let r ← expect ":" rest; let (n, r) ← natField r; pure (.i64 (BitVec.ofNat 64 n), r)
-    | "u8" => do let r ← expect ":" rest; let (n, r) ← natField r; pure (.u8 (BitVec.ofNat 8 n), r)
-    | "u16" => do let r ← expect ":" rest; let (n, r) ← natField r; pure (.u16 (BitVec.ofNat 16 n), r)
-    | "u32" => do let r ← expect ":" rest; let (n, r) ← natField r; pure (.u32 (BitVec.ofNat 32 n), r)
-    | "u64" => do let r ← expect ":" rest; let (n, r) ← natField r; pure (.u64 (BitVec.ofNat 64 n), r)
-    | "int" => do let r ← expect ":" rest; let (n, r) ← natField r; pure (.int (BitVec.ofNat 64 n), r)
-    | "uint" => do let r ← expect ":" rest; let (n, r) ← natField r; pure (.uint (BitVec.ofNat 64 n), r)
+    | "i8" => num .i8 | "i16" => num .i16 | "i32" => num .i32 | "i64" => num .i64
+    | "u8" => num .u8 | "u16" => num .u16 | "u32" => num .u32 | "u64" => num .u64
+    | "int" => num .int | "uint" => num .uint
     | "f32" => do let r ← expect ":" rest; let (n, r) ← natField r; pure (.f32 (BitVec.ofNat 32 n), r)
     | "f64" => do let r ← expect ":" rest; let (n, r) ← natField r; pure (.f64 (BitVec.ofNat 64 n), r)
     | "str" => do let r ← expect ":" rest; let (b, r) ← hexField r; pure (.str b, r)
@@ -84,19 +93,21 @@ mutual
       let r ← expect "(" rest
       let (v, r) ← parseVal r
       let r ← expect ")" r
-      pure (.st1 v, r)
+      match st1Type with
+      | .struct n fields => pure (.struct n fields [v], r)
+      | _ => none
     | "sl" => do
       let r ← expect "<" rest
       let (t, r) ← parseType r
       let r ← expect ">(" r
       let (xs, r) ← parseVals r
       let r ← expect ")" r
-      pure (.slice t xs, r)
+      pure (.slice t false (xs.map (boxFor t)), r)
     | "map" => do
       let r ← expect "{" rest
       let (kvs, r) ← parseKvs r
       let r ← expect "}" r
-      pure (.map kvs, r)
+      pure (.map .iface false (kvs.map fun (k, v) => (k, boxFor .iface v)), r)
     | _ => none
   partial def parseVals : P (List GoVal) := fun cs =>
     match cs with
@@ -123,7 +134,8 @@ end
 inductive Doc where
   | tree (t : NBT)      -- the document must hold this tree
   | refuse              -- not encodable: `Encode` must return an error
-  | free                -- the documentation does not say (mixed integer kinds behind `[]any`, …): no demand
+  | free                -- the documentation does not say (mixed integer kinds behind `[]any`, …): well-formed if accepted
+  | unk                 -- nil pointers, zero carriers (RawMessage{} …): no demand at all
 deriving Inhabited
 
 def docTag : NBT → Nat := fun t => t.tag.toNat
@@ -133,59 +145,121 @@ def allSome {α} : List (Option α) → Option (List α)
   | none :: _ => none
   | some x :: xs => (allSome xs).map (x :: ·)
 
-def isIntLike : GoVal → Bool
-  | .bool _ | .i8 _ | .i16 _ | .i32 _ | .i64 _ | .u8 _ | .u16 _ | .u32 _ | .u64 _ | .int _ | .uint _ => true
+/-- the value inside an interface -/
+def unbox : GoVal → GoVal
+  | .iface (some v) => v
+  | v => v
+
+def isIntLike (v : GoVal) : Bool :=
+  match unbox v with
+  | .bool _ | .int _ _ => true
+  | _ => false
+
+def isRawV (v : GoVal) : Bool :=
+  match unbox v with
+  | .raw _ _ | .dyn _ | .snbt _ => true
+  | .ptr _ (some (.raw _ _)) | .ptr _ (some (.dyn _)) => true
+  | _ => false
+
+def bv (w : Nat) (v : Int) : BitVec w := BitVec.ofInt w v
+
+/-- json's notion of an empty field, which `omitempty` is documented to follow -/
+def isZeroField : GoVal → Bool
+  | .bool b => !b
+  | .int _ v => v == 0
+  | .f32 b => b.toNat % 2 ^ 31 == 0
+  | .f64 b => b.toNat % 2 ^ 63 == 0
+  | .str s | .snbt s => s.isEmpty
+  | .slice _ _ xs | .array _ xs => xs.isEmpty
+  | .map _ _ kvs => kvs.isEmpty
+  | .ptr _ p | .iface p => p.isNone
   | _ => false
 
 mutual
-  partial def docTree : GoVal → Doc
+  partial def docTree (v : GoVal) : Doc :=
+    match v with
+    | .iface (some x) => docTree x
+    | .iface none => .refuse
     | .bool b => .tree (.byte (if b then 1 else 0))
-    | .i8 v | .u8 v => .tree (.byte v)
-    | .i16 v | .u16 v => .tree (.short v)
-    | .i32 v | .u32 v => .tree (.int v)
-    | .i64 v | .u64 v => .tree (.long v)
+    | .int .i8 x | .int .u8 x => .tree (.byte (bv 8 x))
+    | .int .i16 x | .int .u16 x => .tree (.short (bv 16 x))
+    | .int .i32 x | .int .u32 x => .tree (.int (bv 32 x))
+    | .int .i64 x | .int .u64 x => .tree (.long (bv 64 x))
+    | .int _ _ => .refuse
     | .f32 b => .tree (.float b)
     | .f64 b => .tree (.double b)
     | .str s => if s.length > 32767 then .refuse else .tree (.string s)
-    | .int _ | .uint _ | .nil => .refuse
     | .raw t d =>
+      if t == 0 then .unk else
       match parsePayload (d.length + 2) t d with
       | some (tr, []) => .tree tr
       | _ => .free                                       -- the carrier's content is the caller's business
-    | .unit => .tree (.compound [])
-    | .st1 r =>
-      match docTree r with
-      | .tree t => .tree (.compound [([0x72], t)])
-      | d => d
-    | .map kvs =>
+    | .struct n fields fs =>
+      -- the fields of the table (the model's `typeFields`, tied to the real one by `c02.tf`), in table order;
+      -- omitempty drops a field that IS the zero value (false, 0, "", nil pointer / interface, empty container)
+      let es := (typeFields (.struct n fields)).map fun fld =>
+        match walkEnc fld.index (.struct n fields fs) with
+        | none => none                                     -- behind a nil embedded pointer
+        | some fv =>
+          if fld.omitEmpty && isZeroField fv then none else
+          let d := docTree fv
+          let d := if fld.asList then (match d with
+            | .tree (.byteArray xs) => if isRawV fv then Doc.refuse else .tree (.list 1 (xs.map .byte))
+            | .tree (.intArray xs) => if isRawV fv then Doc.refuse else .tree (.list 3 (xs.map .int))
+            | .tree (.longArray xs) => if isRawV fv then Doc.refuse else .tree (.list 4 (xs.map .long))
+            | .tree _ => .refuse
+            | d => d) else d
+          some (fld.name, if fld.name.length > 32767 then Doc.refuse else d)
+      let ds := es.filterMap id
+      if ds.any (fun d => match d.2 with | .unk => true | _ => false) then .unk
+      else if ds.any (fun d => match d.2 with | .refuse => true | _ => false) then .refuse
+      else if ds.any (fun d => match d.2 with | .free => true | _ => false) then .free
+      else .tree (.compound (ds.filterMap fun (k, d) => match d with | .tree t => some (k, t) | _ => none))
+    | .array elem xs => docSlice elem xs
+    | .ptr _ none => .unk                                -- what a nil pointer encodes to is not documented
+    | .ptr _ (some x) => docTree x
+    | .dyn d =>
+      if d.tag == 0 then .unk else
+      match Model.DynBT.marshal d with
+      | .ok bs => (match parsePayload (bs.length + 2) d.tag bs with
+        | some (tr, []) => .tree tr
+        | _ => .free)
+      | _ => .free
+    | .map _ _ kvs =>
       let ds := kvs.map fun (k, v) => (k, docTree v)
+      if ds.any (fun d => match d.2 with | .unk => true | _ => false) then .unk else
       if ds.any (fun d => match d.2 with | .refuse => true | _ => false) || kvs.any (fun kv => kv.1.length > 32767) then .refuse
       else if ds.any (fun d => match d.2 with | .free => true | _ => false) then .free
       else .tree (.compound (ds.filterMap fun (k, d) => match d with | .tree t => some (k, t) | _ => none))
-    | .slice elem xs => docSlice elem xs
+    | .slice elem _ xs => docSlice elem xs
+    | _ => .free
   partial def docSlice (elem : GoType) (xs : List GoVal) : Doc :=
     -- byte / int / long slices are typed arrays
-    let bytesOf := xs.filterMap fun x => match x with
-      | .bool b => some (if b then (1 : Byte) else 0) | .i8 v | .u8 v => some v | _ => none
-    let intsOf := xs.filterMap fun x => match x with | .i32 v | .u32 v => some v | _ => none
-    let longsOf := xs.filterMap fun x => match x with | .i64 v | .u64 v => some v | _ => none
+    let bytesOf := xs.filterMap fun x => match unbox x with
+      | .bool b => some (if b then (1 : Byte) else 0) | .int .i8 v | .int .u8 v => some (bv 8 v) | _ => none
+    let intsOf := xs.filterMap fun x => match unbox x with | .int .i32 v | .int .u32 v => some (bv 32 v) | _ => none
+    let longsOf := xs.filterMap fun x => match unbox x with | .int .i64 v | .int .u64 v => some (bv 64 v) | _ => none
     match elem with
-    | .bool | .i8 | .u8 => .tree (.byteArray bytesOf)
-    | .i32 | .u32 => .tree (.intArray intsOf)
-    | .i64 | .u64 => .tree (.longArray longsOf)
+    | .bool | .int .i8 | .int .u8 => .tree (.byteArray bytesOf)
+    | .int .i32 | .int .u32 => .tree (.intArray intsOf)
+    | .int .i64 | .int .u64 => .tree (.longArray longsOf)
     | _ =>
       match xs with
       | [] => .tree (.list 0 [])                          -- an empty list; its element tag is not compared
       | x0 :: _ =>
         let ds := xs.map docTree
+        if ds.any (fun d => match d with | .unk => true | _ => false) then .unk else
+        -- pointer elements: slices of pointers are not in the documented mapping
+        if xs.any (fun x => match unbox x with | .ptr _ _ => true | _ => false) then .free else
         if ds.any (fun d => match d with | .free => true | _ => false) then .free else
-        let anyRaw := xs.any isRaw
-        let allRaw := xs.all isRaw
+        let anyRaw := xs.any isRawV
+        let allRaw := xs.all isRawV
         if anyRaw && !allRaw then .free else                  -- carriers mixed with plain values: only well-formedness is demanded
         match allSome (ds.map fun d => match d with | .tree t => some t | _ => none) with
         | none =>
           -- some element is not encodable: an error, unless the slice is (mis)typed as an array of integers
-          if (match elem with | .any => true | _ => false) && isIntLike x0 && !(match x0 with | .int _ | .uint _ => true | _ => false)
+          if (match elem with | .iface => true | _ => false) && isIntLike x0
+             && !(match unbox x0 with | .int .int _ | .int .uint _ => true | _ => false)
              && xs.all isIntLike then .free else .refuse
         | some ts =>
           match ts with
@@ -209,7 +283,7 @@ def enc (fmtS nameHex desc obs : String) : Verdict :=
   | some name, some (v, []) =>
     let network := fmtS == "net"
     let fmt : Format := if network then .network else .file
-    let r := encode network name v
+    let r := encode GoText.snbtCarrier network name (match v with | .iface none => none | x => some x)
     let modelStr := match r with
       | .ok bs => "ok " ++ hexOfBytes bs
       | .err => "err"
@@ -237,6 +311,7 @@ def enc (fmtS nameHex desc obs : String) : Verdict :=
     let spec : Option String :=
       if obs == "panic" then some "encoder panicked"
       else match (if nameTooLong then Doc.refuse else docTree v) with
+        | .unk => none
         | .free => if obs.startsWith "ok " && implDoc.isNone then some "emitted bytes are not a well-formed document" else none
         | .refuse => if obs.startsWith "ok " then some "value outside the documented mapping accepted (nil error)" else none
         | .tree want =>
@@ -250,10 +325,69 @@ def enc (fmtS nameHex desc obs : String) : Verdict :=
     { model, spec }
   | _, _ => { model := "bad-arg" }
 
+/-- `c01.rt <file|net> <val|ptr> <name> <T> <V>` (typed universe, same observation as `c02.rt`): the C01 clauses —
+the encoder does not panic, what it emits is a well-formed document holding the documented tree of the value
+under the given root name; what it cannot represent is an error. (The round trip itself is C02's.) -/
+def rtTyped (fmtS nameHex tdesc vdesc obs : String) : Verdict :=
+  match parseHex nameHex, GoText.parseType tdesc.toList with
+  | some name, some (t, []) =>
+    match GoText.parseVal t vdesc.toList with
+    | some (v, []) =>
+      let network := fmtS == "net"
+      let fmt : Format := if network then .network else .file
+      let toks := obs.splitOn " "
+      let encTok := (kv toks "enc").getD ""
+      let implBytes : Option Bytes := if encTok.startsWith "ok:" then parseHex (encTok.drop 3).toString else none
+      let implDoc : Option (Bytes × NBT) := implBytes.bind fun bs => match parseDoc fmt bs with
+        | some (n, tr, []) => some (n, tr)
+        | _ => none
+      let r := encode GoText.snbtCarrier network name (some v)
+      let sameAsModel (bs ib : Bytes) : Bool :=
+        bs == ib || (match parseDoc fmt bs, implDoc with
+          | some (n, tr, []), some (n', tr') => n == n' && specAny tr == specAny tr' && tr.tag == tr'.tag && bs.length == ib.length
+          | none, none => bs.length == ib.length && (bs.map (·.toNat)).mergeSort == (ib.map (·.toNat)).mergeSort
+          | _, _ => false)
+      let encStr := match r, implBytes with
+        | .ok bs, some ib => if sameAsModel bs ib then "enc=" ++ encTok else "enc=ok:" ++ hexOfBytes bs
+        | .ok bs, none => "enc=ok:" ++ hexOfBytes bs
+        | .err, _ => "enc=err"
+        | .panic, _ => "enc=panic"
+      let docForDec : Option Bytes := match r, implBytes with
+        | .ok _, some ib => some ib
+        | .ok bs, none => some bs
+        | _, _ => none
+      let model := match docForDec with
+        | some doc =>
+          let d := decodeTyped GoText.snbtCarrier network false t (Stream.ofBytes doc)
+          encStr ++ " chg=0 " ++ (match d.1 with
+            | .ok (v', nm) => s!"dec=ok:{GoText.showVal v'} name={hexOfBytes nm} left={d.2.flat.length}"
+            | .err => "dec=err"
+            | .panic => "dec=panic")
+        | none => encStr ++ " chg=0"
+      let nameTooLong := !network && name.length > 32767
+      let spec : Option String :=
+        if encTok == "panic" || encTok == "hang" then some "encoder panicked or hung"
+        else match (if nameTooLong then Doc.refuse else docTree v) with
+          | .unk => none
+          | .free => if encTok.startsWith "ok:" && implDoc.isNone then some "emitted bytes are not a well-formed document" else none
+          | .refuse => if encTok.startsWith "ok:" then some "value outside the documented mapping accepted (nil error)" else none
+          | .tree want =>
+            match implDoc with
+            | none => some (if encTok.startsWith "ok:" then "emitted bytes are not a well-formed document" else "encodable value refused")
+            | some (n, tr) =>
+              if n != (if network then [] else name) then some "root name differs"
+              else if specAny tr != specAny want then some ("document tree differs: expected " ++ ((specAny want).take 160).toString)
+              else if tr.tag != want.tag then some "root tag differs"
+              else none
+      { model, spec }
+    | _ => { model := "bad-value" }
+  | _, _ => { model := "bad-arg" }
+
 def handle (op : String) (args : List String) (obs : String) : Option Verdict :=
   match op, args with
   | "c01.dec", _ => Driver.NBT.handleDec "C01" args obs
   | "c01.enc", [f, n, d] => some (enc f n d obs)
+  | "c01.rt", [f, _how, n, t, v] => some (rtTyped f n t v obs)
   | _, _ => none
 
 end Driver.C01
